@@ -7,15 +7,24 @@ let errno_of = function
   | "eio" -> z_of_int 5
   | s -> failwith ("errno " ^ s)
 let show_ev = function NewConn -> "NewConn" | ValveClosed -> "ValveClosed" | Abort -> "Abort"
+(* ---- loop mode: the environment of the scripted scenario (what the handlers / functors of
+   harness/C11_driver.cc do), given to the extracted C11_Model.loop_run.  User state = unread
+   bytes of the three pipes. *)
+let set_nth l i v = List.mapi (fun j x -> if j = i then v else x) l
+let hnd c u = let i = int_of_nat c in ((set_nth u i 0, (if i = 1 then [nat_of_int 5] else [])), false)
+let fnb f u = let i = int_of_nat f in ((u, (if i >= 10 && i < 20 then [nat_of_int (i - 10)] else [])), i = 99)
+let show_ids pre l = if l = [] then "-" else String.concat "," (List.map (fun x -> pre ^ string_of_int (int_of_nat x)) l)
 let () =
-  let a = ref acc_init and mode = ref "" and lk = ref 0 and ln = ref 0 in
+  let a = ref acc_init and mode = ref "" in
+  let src = if (try Sys.getenv "MUDUO_USE_POLL" <> "" with Not_found -> false) then ppoll_src else epoll_src in
+  let l = ref { l_user = [0; 0; 0]; l_pending = []; l_quit = false; l_iter = O; l_active = [] } in
   (try while true do
     let line = input_line stdin in
     match split_ws line with
     | [] -> ()
-    | "case" :: id :: m :: rest ->
+    | "case" :: id :: m :: _ ->
         a := acc_init; mode := m;
-        (match rest with k :: n :: _ -> lk := int_of_string k; ln := int_of_string n | _ -> ());
+        l := { l_user = [0; 0; 0]; l_pending = []; l_quit = false; l_iter = O; l_active = [] };
         Printf.printf "case %s\n" id; flush stdout
     | ["end"] -> print_string "end\n"; flush stdout
     | w ->
@@ -34,14 +43,36 @@ let () =
           (if a'.idle_ok then 1 else 0) (int_of_nat a'.open_fds - 2);
         flush stdout
       end else begin
-        (* k interrupted polls dispatch nothing and keep the loop going; the n tasks run; quit ends it *)
-        let alive = ref true and dispatched = ref 0 in
-        for _ = 1 to !lk do
-          let (n, go) = poll_iteration (PErr errno_EINTR) in
-          dispatched := !dispatched + int_of_nat n; alive := !alive && go
-        done;
-        Printf.printf "ok ev=- ran=%d exited=%d interrupted_left=0 bounded=%d\n" !ln (if !alive then 1 else 0)
-          (if !dispatched = 0 then 1 else 0);
+        (* one pass of the loop: what another thread did, then how the poll call returned *)
+        let (kind, exts) = match w with
+          | "I" :: r -> (`Fail errno_EINTR, r)
+          | "E" :: e :: r -> (`Fail (errno_of e), r)
+          | "N" :: r -> (`Normal, r)
+          | _ -> failwith ("bad op " ^ line) in
+        if !l.l_quit then print_string "ok unused\n"
+        else begin
+          let xs = List.concat (List.map (fun e ->
+            if e = "quit" then [XQuit]
+            else if e.[0] = 'q' then [XQueue (nat_of_int (int_of_string (String.sub e 1 (String.length e - 1))))]
+            else begin
+              (* a pipe becomes readable: the kernel's state, kept in the user component *)
+              let i = int_of_string (String.sub e 1 (String.length e - 1)) in
+              l := { !l with l_user = set_nth !l.l_user i (List.nth !l.l_user i + 1) }; []
+            end) exts) in
+          let ready = List.concat (List.mapi (fun i n -> if n > 0 then [nat_of_int i] else []) !l.l_user) in
+          let k = match kind with
+            | `Fail e -> k_intr e ready
+            | `Normal -> { k_n = z_of_int (List.length ready); k_errno = z_of_int 0; k_ready = ready } in
+          let ((l', ts), ab) = loop_run hnd fnb src !l [(xs, k)] in
+          l := l';
+          (match ts with
+           | [t] when not ab ->
+               Printf.printf "ok disp=%s ran=%s pend=%d quit=%d it=%d log=%d\n"
+                 (show_ids "c" (List.sort compare t.t_disp)) (show_ids "f" t.t_ran)
+                 (List.length l'.l_pending) (if l'.l_quit then 1 else 0) (int_of_nat l'.l_iter)
+                 (if t.t_errlog then 1 else 0)
+           | _ -> print_string "ok ABORT\n")
+        end;
         flush stdout
       end
   done with End_of_file -> ())
